@@ -3,8 +3,8 @@ import json, os, re, sys, time
 
 VERIF = os.path.dirname(os.path.dirname(os.path.abspath(__file__)))
 REPO = os.environ.get("KOGE29_REPO", "/repo")
-EVID = os.path.join(VERIF, "evidence")
-REPLAY = os.path.join(VERIF, "replay")
+EVID = os.environ.get("KOGE29_EVID_DIR", os.path.join(VERIF, "evidence"))
+REPLAY = os.environ.get("KOGE29_REPLAY_DIR", os.path.join(VERIF, "replay"))
 KNOWN = os.path.join(VERIF, "known_findings.jsonl")
 
 DISCHARGED = "discharged"
